@@ -38,6 +38,10 @@ let () = serve (fun fn req ->
       let name = jcps (jfield req "name") in
       let (a, b) = splitext name in
       JObj [("split", JArr [of_cps a; of_cps b]); ("out", of_cps (sanitize name)); ("base", of_cps (basename name))]
+  | "save_name" ->
+      let s = jcps (jfield req "sugg") in
+      JObj [("strip", of_cps (py_strip s)); ("suggested", of_option of_cps (suggested_save_name s));
+            ("save", of_option of_cps (save_file_name s))]
   | "strip" -> of_cps (strip (jcps (jfield req "s")))
   | "create" ->
       of_option of_stream
@@ -48,6 +52,10 @@ let () = serve (fun fn req ->
   | "split" -> of_list of_bytes (split (jnat (jfield req "maxb")) (jbytes (jfield req "file")))
   | "decrypt" ->
       of_option of_bytes (decrypt_stream aes_d (jdesc (jfield req "desc")) (SL.map jbytes (jlist (jfield req "cts"))))
+  | "reads" ->
+      let w = SL.map (fun j -> (jdesc (jfield j "desc"), SL.map jbytes (jlist (jfield j "cts")))) (jlist (jfield req "world")) in
+      let ops = SL.map (fun j -> match jlist j with [a; b] -> (jnat a, jnat b) | _ -> raise (Model_error "op")) (jlist (jfield req "ops")) in
+      of_list (of_option of_bytes) (run_reads aes_d (jnat (jfield req "cap")) w [] ops)
   | "validate" ->
       (match validate h384 (jsdj (jfield req "sdj")) with
        | Ok d -> JObj [("ok", of_desc d)]
